@@ -318,6 +318,8 @@ def run(P, rep, tier):
     r1318(W, rep)
     r1319(W, engs, rep)
     r1320(W, engs, rep)
+    r1322(P, W, rep)
+    r1323(P, rep, tier)
     for rule, fam in (('R13.13', LD.r1313_function), ('R13.14', LD.r1314_declspec), ('R13.15', LD.r1315_typing), ('R13.16', LD.r1316_constexpr)):
         try:
             fam(P, rep, rule)
@@ -2300,3 +2302,294 @@ def r1320(W, engs, rep):
                 seen[key] = (bad is None, bad or '', where)
         for key, (ok, msg, where) in sorted(seen.items()):
             rep.ob('R13.20', key, ok, msg, where=where)
+
+
+# --------------------------------------------------------------------------------------------
+def _var_writes(fd, vid):
+    """nodes of the function that may change the variable with declaration id vid: assignments, ++/--, its address taken"""
+    out = []
+    for x in fd.walk():
+        t = None
+        if x.kind in ('BinaryOperator', 'CompoundAssignOperator') and (x.opcode == '=' or x.kind == 'CompoundAssignOperator'):
+            t = x.inner[0].strip()
+        elif x.kind == 'UnaryOperator' and x.opcode in ('++', '--', '&'):
+            t = x.inner[0].strip()
+        if t is not None and t.kind == 'DeclRefExpr' and t.ref_id == vid:
+            out.append(x)
+    return out
+
+
+def _inside(n, anc):
+    while n is not None:
+        if n is anc:
+            return True
+        n = n.parent
+    return False
+
+
+def _entry_copies(fd, body, pid):
+    """ids of variables that hold the value the parameter pid had on entry for the whole function: the parameter itself if it is never changed, and locals
+    declared with the parameter as initializer in a top-level statement that precedes every change of the parameter, never changed themselves"""
+    ws = _var_writes(fd, pid)
+    out = set()
+    if not ws:
+        out.add(pid)
+    if body is None:
+        return out
+    for k, st in enumerate(body.inner):
+        if any(_inside(w, st) for w in ws):
+            break
+        if st.kind != 'DeclStmt':
+            continue
+        for d in st.inner:
+            if d.kind != 'VarDecl' or 'init' not in d.d:
+                continue
+            ex = [c for c in d.inner if not c.kind.endswith('Attr')]
+            i = ex[-1].strip_all() if ex else None
+            if i is not None and i.kind == 'DeclRefExpr' and i.ref_id == pid and not _var_writes(fd, d.id):
+                out.add(d.id)
+    return out
+
+
+def r1322(P, W, rep):
+    """printing a diagnostic terminates.  The printer computes the column of the reported position by running input-examining code over the text of the line
+    in front of that position; that code reports malformed input through the same diagnostic functions, i.e. it re-enters the printer.  The re-entry is
+    harmless exactly if it makes progress: the window the printer examines ends before the reported position, the examining function is applied only to
+    cursors inside the window, and what it reports is not after the cursor it was given.  Then every nested diagnostic has a strictly smaller position and
+    the innermost one is printed.  If any of the three is off by one byte, the nested diagnostic covers the offending byte again and the compiler recurses
+    until the stack overflows."""
+    rep.rule('R13.22', 'printing a diagnostic terminates: where code that the diagnostic printer runs over the reported line (column computation) can itself issue a located diagnostic, '
+                       '(a) the position it reports is never after the cursor it was called with, (b) the function that applies it does so only to cursors strictly inside the window '
+                       '[start, start+len) it was given, and (c) the printer\'s window ends at the reported position (len = position - start of the line): every nested diagnostic then has a '
+                       'strictly smaller position; otherwise the nested printer examines the offending byte again and the compiler recurses until the stack overflows (SIGSEGV, no message)', floor=1)
+    from ..interp import Interp, Sym, Lin, Unsupported
+    PR = 'verror_at'
+    tu = W.units['tokenize.c']
+    va = tu.functions.get(PR)
+    if va is None:
+        rep.undecided('R13.22', 'tokenize.c:verror_at', 'the diagnostic printer verror_at() vanished')
+        return
+    fdef, callees = {}, {}
+    for un, u in sorted(W.units.items()):
+        for f, fd in u.functions.items():
+            if len(W.fn_unit.get(f, ())) == 1:
+                fdef[f] = (un, u, fd)
+                callees[f] = set(c.callee() for c in fd.calls() if c.callee())
+
+    def reach_from(f):
+        out, work = set(), [f]
+        while work:
+            g = work.pop()
+            for h in callees.get(g, ()):
+                if h in fdef and h not in out:
+                    out.add(h)
+                    work.append(h)
+        return out
+    below = reach_from(PR)
+    entries = set(f for f in fdef if PR in callees[f])
+    closing = {}
+    for D in sorted(((below - entries) | set([PR])) & set(fdef)):
+        for c in fdef[D][2].calls():
+            if c.callee() in entries:
+                closing.setdefault(D, []).append(c)     # a function the printer runs issues a diagnostic: the printer is re-entered
+    pwhere = 'tokenize.c:%d' % va.line
+    if not closing:
+        rep.ob('R13.22', 'tokenize.c:verror_at:no-re-entry', True, '', where=pwhere)
+        return
+    vps = [c for c in va.inner if c.kind == 'ParmVarDecl']
+    vids = [p.id for p in vps]
+    rep.extra['diagnostic_printer_re_entry'] = {'functions_the_printer_runs': sorted(below), 'diagnostic_functions': sorted(entries),
+                                                'calls_that_re_enter': {D: sorted(set(c.callee() for c in cs)) for D, cs in sorted(closing.items())}}
+    # (c) the printer's window: a call G(B, loc - B) with loc an unchanged parameter of the printer
+    windows = {}     # G -> (index of the start parameter, index of the length parameter, index of the printer's position parameter)
+    for D in sorted(closing):
+        un, u, fd = fdef[D]
+        if D == PR:
+            rep.undecided('R13.22', 'tokenize.c:verror_at:re-enters-directly', 'the diagnostic printer calls a diagnostic function itself: progress of that recursion is not analysed', where=pwhere)
+            continue
+        Gs = sorted(G for G in callees[PR] if G in fdef and (G == D or D in reach_from(G)))
+        for G in Gs:
+            if G in windows:
+                continue
+            for c in va.calls(G):
+                a = c.args()
+                key = 'tokenize.c:verror_at:%s-window-ends-at-position' % G
+                found = None
+                for j, x in enumerate(a):
+                    y = x.strip_all()
+                    extra = 0
+                    if y.kind == 'BinaryOperator' and y.opcode in ('+', '-') and y.inner[1].int_value() is not None and y.inner[0].strip_all().kind == 'BinaryOperator':
+                        extra = y.inner[1].int_value() * (1 if y.opcode == '+' else -1)
+                        y = y.inner[0].strip_all()
+                    if y.kind == 'BinaryOperator' and y.opcode == '-':
+                        l, r = y.inner[0].strip_all(), y.inner[1].strip_all()
+                        if l.kind == 'DeclRefExpr' and l.ref_id in vids and not _var_writes(va, l.ref_id) and r.kind == 'DeclRefExpr':
+                            for i, z in enumerate(a):
+                                z = z.strip_all()
+                                if i != j and z.kind == 'DeclRefExpr' and z.ref_id == r.ref_id:
+                                    found = (i, j, vids.index(l.ref_id), extra)
+                if found is None:
+                    rep.undecided('R13.22', key, 'the call %s(%s) in the printer is not of the form (start, position - start): the window the printer examines is not recognised'
+                                  % (G, ', '.join(x.src() for x in a)), where='tokenize.c:%d' % c.line)
+                    windows[G] = None
+                    continue
+                i, j, li, extra = found
+                if windows.get(G, 0) is None:
+                    continue
+                windows[G] = (i, j, li)
+                rep.ob('R13.22', key if extra <= 0 else key + ':length+%d' % extra, extra <= 0,
+                       'verror_at() computes the column with %s(%s): the window it examines reaches %d byte(s) beyond the position `%s` the diagnostic is about; when %s() reports that byte as '
+                       'malformed, the nested printer examines it again -- the compiler recurses until the stack overflows (SIGSEGV) instead of printing the diagnostic'
+                       % (G, ', '.join(x.src() for x in a), extra, vps[li].name, D), where='tokenize.c:%d' % c.line)
+    for D in sorted(closing):
+        if D == PR:
+            continue
+        un, u, fd = fdef[D]
+        dps = [c for c in fd.inner if c.kind == 'ParmVarDecl']
+        dwhere = '%s:%d' % (un, fd.line)
+        # position parameter of each diagnostic function called here
+        ent = {}
+        for c in closing[D]:
+            E = c.callee()
+            if E in ent:
+                continue
+            ent[E] = None
+            if E not in entries:
+                continue
+            eun, eu, efd = fdef[E]
+            eps = [x for x in efd.inner if x.kind == 'ParmVarDecl']
+            pcs = efd.calls(PR)
+            lis = set(w[2] for w in windows.values() if w)
+            if len(pcs) == 1 and len(lis) == 1:
+                a = pcs[0].args()
+                li = list(lis)[0]
+                x = a[li].strip_all() if li < len(a) else None
+                if x is not None and x.kind == 'DeclRefExpr' and x.ref_id in [p.id for p in eps] and not _var_writes(efd, x.ref_id):
+                    ent[E] = [p.id for p in eps].index(x.ref_id)
+        for E, k in sorted(ent.items()):
+            if k is None:
+                rep.undecided('R13.22', '%s:%s:%s:position' % (un, D, E), '%s(), which the diagnostic printer runs, calls %s(): the position that call reports cannot be related to the cursor '
+                              '(%s() does not hand one of its parameters on to the printer unchanged)' % (D, E, E), where=dwhere)
+        # (a) positions reported by D, relative to its parameters (Engine I, every path)
+        syms = [Sym(p.name or 'p%d' % i) for i, p in enumerate(dps)]
+        try:
+            it = Interp(P, u, {'opaque': [], 'loop_limit': 1})
+            paths = it.explore(D, lambda ctx: list(syms), max_paths=4000)
+        except (AnalysisBroken, Unsupported) as e:
+            rep.undecided('R13.22', '%s:%s:reported-position' % (un, D), '%s() cannot be interpreted: %s' % (D, e), where=dwhere)
+            continue
+        offs = {}      # (E, parameter index, offset) -> line
+        odd = {}
+        for ctx, out in paths:
+            if out[0] != 'noreturn' or ent.get(out[1]) is None:
+                continue
+            E, k = out[1], ent[out[1]]
+            v = out[2][k] if k < len(out[2]) else None
+            l = Lin.of(v) if v is not None else None
+            if isinstance(l, int):
+                l = None
+            hit = None
+            if l is not None and len(l.terms) == 1:
+                (co, leaf), = l.terms.values()
+                if co == 1:
+                    for i, s in enumerate(syms):
+                        if leaf is s or (isinstance(leaf, Sym) and leaf.key() == s.key()):
+                            hit = (E, i, l.c)
+            if hit is None:
+                odd[(E, repr(v))] = out[3]
+            else:
+                offs.setdefault(hit, out[3])
+        for (E, v), line in sorted(odd.items()):
+            rep.undecided('R13.22', '%s:%s:%s(%s)' % (un, D, E, v.replace(' ', '')), 'the position %s() reports (%s) is not its cursor parameter plus a constant' % (D, v), where='%s:%d' % (un, line))
+        cursors = sorted(set(i for (E, i, o) in offs))
+        for (E, i, o), line in sorted(offs.items()):
+            rep.ob('R13.22', '%s:%s:%s(param#%d%s)' % (un, D, E, i + 1, ('%+d' % o) if o else ''), o <= 0,
+                   '%s() is run by the diagnostic printer over the text in front of the reported position and reports malformed input at `%s + %d`, %d byte(s) after the cursor it was given: the '
+                   'nested printer then examines the text up to that position, meets the same malformed bytes at the same cursor and reports them again -- the compiler recurses until the stack '
+                   'overflows (SIGSEGV after thousands of lines of output) instead of printing the diagnostic once' % (D, dps[i].name, o, o), where='%s:%d' % (un, line))
+        # (b) the function(s) between the printer and D apply D only inside the window
+        for G in sorted(G for G in callees[PR] if G in fdef and G != D and D in reach_from(G)):
+            w = windows.get(G)
+            gun, gu, gfd = fdef[G]
+            key = '%s:%s:%s-inside-window' % (gun, G, D)
+            gwhere = '%s:%d' % (gun, gfd.line)
+            if w is None:
+                continue
+            if D not in callees[G] or len(cursors) != 1:
+                rep.undecided('R13.22', key, '%s() reaches %s() only through other functions (or %s() has no single cursor parameter): the cursors it is applied to are not recognised' % (G, D, D), where=gwhere)
+                continue
+            kD = cursors[0]
+            gps = [c for c in gfd.inner if c.kind == 'ParmVarDecl']
+            gbody = gu.body(G)
+            starts = _entry_copies(gfd, gbody, gps[w[0]].id) if w[0] < len(gps) else set()
+            nid = gps[w[1]].id if w[1] < len(gps) else None
+            for c in gfd.calls(D):
+                a = c.args()
+                cur = a[kD].strip_all() if kD < len(a) else None
+                verdict, rel = None, None
+                if cur is not None and cur.kind == 'DeclRefExpr' and nid is not None and not _var_writes(gfd, nid):
+                    n, p = c, c.parent
+                    while p is not None and p is not gfd:
+                        if p.kind in ('WhileStmt', 'IfStmt') or (p.kind == 'ForStmt'):
+                            if p.kind == 'ForStmt':
+                                raw, itr, slots = p.d.get('inner', []), iter(p.inner), []
+                                for r in raw:
+                                    slots.append(next(itr) if (isinstance(r, dict) and r) else None)
+                                slots = (slots + [None] * 5)[:5]
+                                cnd = slots[2]
+                                inbody = n is slots[4]
+                            else:
+                                cnd = p.inner[0]
+                                inbody = n is p.inner[1]
+                            if cnd is not None and inbody:
+                                # nothing between the test and the call changes the cursor
+                                blk = n
+                                clean = True
+                                if blk.kind == 'CompoundStmt':
+                                    for st in blk.inner:
+                                        if _inside(c, st):
+                                            break
+                                        if any(_inside(x, st) for x in _var_writes(gfd, cur.ref_id)):
+                                            clean = False
+                                for q in _conjuncts(cnd):
+                                    q = q.strip_all()
+                                    if q.kind != 'BinaryOperator' or q.opcode not in ('<', '<=', '>', '>='):
+                                        continue
+                                    lo, hi, op = (q.inner[0].strip_all(), q.inner[1].strip_all(), q.opcode) if q.opcode in ('<', '<=') else (q.inner[1].strip_all(), q.inner[0].strip_all(), {'>': '<', '>=': '<='}[q.opcode])
+                                    if lo.kind == 'BinaryOperator' and lo.opcode == '-' and hi.kind == 'DeclRefExpr' and hi.ref_id == nid:
+                                        x, y = lo.inner[0].strip_all(), lo.inner[1].strip_all()
+                                        if x.kind == 'DeclRefExpr' and x.ref_id == cur.ref_id and y.kind == 'DeclRefExpr' and y.ref_id in starts and clean:
+                                            if rel is None or op == '<':
+                                                rel = op
+                        n, p = p, p.parent
+                if rel is None:
+                    rep.undecided('R13.22', key, '%s() calls %s(%s) but no dominating loop or branch condition of the form `cursor - start < length` (start: the value of parameter %d on entry, '
+                                  'length: parameter %d, unchanged) was recognised' % (G, D, ', '.join(x.src() for x in a), w[0] + 1, w[1] + 1), where='%s:%d' % (gun, c.line))
+                else:
+                    rep.ob('R13.22', key if rel == '<' else key + ':cursor<=end', rel == '<',
+                           '%s() applies %s() to cursors up to and including start + length (`<=`): the printer hands it the text in front of the reported position, so the byte at the '
+                           'position itself is examined too; when that byte is what %s() reports, the nested printer examines it again and the compiler recurses until the stack overflows'
+                           % (G, D, D), where='%s:%d' % (gun, c.line))
+
+
+def r1323(P, rep, tier):
+    """output that the assembler rejects is not output: the obligations of C04 on the immediates of the bit-field templates are re-issued here"""
+    rep.rule('R13.23', 'a valid program is answered with assembly the assembler accepts: every ALU instruction template of the bit-field read and write sequences whose immediate operand is a '
+                       'formula of the field\'s width / bit offset stays within a sign-extended 32-bit immediate for every field the layout admits, and the one width for which the host '
+                       'computation of the mask is undefined (64) is singled out (obligations of C04 R04.1/R04.2, re-issued)', floor=12)
+    from ..report import Report, reissue
+    from ..interp import Unsupported
+    sub = Report('C04')
+    try:
+        from . import c04
+        from ..chibi import CG
+        if hasattr(c04, 'r_bitfield') and hasattr(c04, 'wrap'):
+            c04.r_bitfield(c04.wrap(CG(P)), sub)
+        else:
+            c04.run(P, sub, tier)
+    except (AnalysisBroken, Unsupported) as e:
+        rep.undecided('R13.23', 'codegen.c:gen_expr:bitfield-templates', 'the bit-field sequences of the code generator cannot be interpreted: %s' % e)
+        return
+    why = 'the compiler exits 0 with assembly that the assembler rejects, so a valid program is not compiled: '
+    n = reissue(rep, 'R13.23', sub, why, keep=lambda o: 'immediates-encodable' in o['key'] or 'width-64-mask' in o['key'])
+    rep.extra['R13.23'] = {'obligations_of_C04_reissued': n}
